@@ -889,16 +889,23 @@ theorem magic_revision_hijacked :
       .ok [(kA, v1, 1886), (kB, v2, 1887)] := by decide
 
 /-- `count_only` AT AN EXPLICIT REVISION (/repo 5f2847c; formerly the observation `count_only_ignores_revision`:
-the revision was dropped): over a proper interval whose bounds are keys or successors `K ++ [0]` of keys, at any
-revision `0 < R ≤ committed` (≠ 1888), the whole response — header, no kvs, Count = the number of keys of the
-range AT `R`, no more — equals etcd's. -/
+the revision was dropped): over a proper interval with ARBITRARY bounds (any byte strings — since /repo 23c8b93;
+before: keys or successors `K ++ [0]` of keys), at any revision `0 < R ≤ committed` (≠ 1888), the whole response —
+header, no kvs, Count = the number of keys of the range AT `R`, no more — equals etcd's. (A `range_end` of `"\0"`,
+etcd's "from key" marker, cannot be the end of a proper interval above a non-empty key: `end_ne_zero_of_lt`.) -/
 theorem count_only_at_revision_matches_ref (c : Cfg) (s : BState) (recs : List Rec) (hst : StoreAbs c s recs)
-    (r : RangeReq) (hp : PlainRange r) (hco : r.countOnly = true) (hk : r.key ≠ []) (hka : RangeBound r.key)
-    (hea : RangeBound r.rangeEnd) (h0 : (r.rangeEnd == [0]) = false) (hlt : cmp r.key r.rangeEnd = .lt)
+    (r : RangeReq) (hp : PlainRange r) (hco : r.countOnly = true) (hk : r.key ≠ []) (hlt : cmp r.key r.rangeEnd = .lt)
     (hr0 : 0 < r.revision) (hrc : r.revision ≤ s.committed) (hmagic : r.revision ≠ getPartitionMagic)
     (hcb : s.committed < 2 ^ 64) :
     ∃ a, shimRange c s r = .ok a ∧ refRangeH (histOf recs s.committed) r = .ok a :=
-  range_count_rev_sound c s recs hst r hp hco hk hka hea h0 hlt hr0 hrc hmagic hcb
+  range_count_rev_sound c s recs hst r hp hco hk hlt hr0 hrc hmagic hcb
+
+/-- ... and at the CURRENT revision (`range_count_only_matches_ref` for arbitrary bounds). -/
+theorem count_only_any_bounds_matches_ref (c : Cfg) (s : BState) (recs : List Rec) (hst : StoreAbs c s recs)
+    (r : RangeReq) (hp : PlainRange r) (hco : r.countOnly = true) (hk : r.key ≠ []) (hlt : cmp r.key r.rangeEnd = .lt)
+    (hr0 : r.revision = 0) :
+    ∃ a, shimRange c s r = .ok a ∧ refRangeH (histOf recs s.committed) r = .ok a :=
+  range_count_sound_bounds c s recs hst r hp hco hk hlt hr0
 
 /-- ... and BELOW THE COMPACTION FLOOR it is refused (on every state, any bounds of a proper interval), like
 the same range without `count_only` (C08 `list_refused_below_floor`); etcd answers `ErrCompacted`. -/
@@ -932,19 +939,21 @@ theorem count_only_counts_revision :
     shimRange cfg0 s5 { key := pfxLo, rangeEnd := pfxHi, revision := 1003 } = .error (.backend .belowFloor) ∧
     (shimRange cfg0 s5 { key := pfxLo, rangeEnd := pfxHi, countOnly := true }).map (·.count) = .ok 2 := by decide
 
-/-! ### range bounds of the form `K ++ [0]` (/repo 146f0bb): pagination and single-key ranges -/
+/-! ### range bounds with bytes at or below the split byte (/repo 146f0bb: `K ++ [0]`; /repo 23c8b93: ANY bound):
+pagination, single-key ranges, bounds outside the key alphabet -/
 
-/-- `range_matches_ref` for bounds that are keys over the alphabet OR successors `K ++ [0]` of such keys — the
-continue key of a paginated list (`lastKey ++ "\0"`), the end of a single-key range `[k, k ++ "\0")`: same
-header, same key-values in the same order, same more-flag as etcd on the RAW keys. -/
+/-- `range_matches_ref` for ARBITRARY bounds — keys over the alphabet, successors `K ++ [0]` of such keys (the
+continue key of a paginated list `lastKey ++ "\0"`, the end of a single-key range `[k, k ++ "\0")`), and since
+/repo 23c8b93 every other byte string (`K ++ "\x01"`, `K ++ "#"`, `K ++ "\0\0"`, `K ++ "\0b"`, a bound starting
+with a low byte): same header, same key-values in the same order, same more-flag as etcd on the RAW keys. The
+only hypotheses left on the bounds are those of a proper interval above a non-empty key. -/
 theorem range_succ_bounds_match_ref (c : Cfg) (s : BState) (recs : List Rec) (hst : StoreAbs c s recs) (r : RangeReq)
-    (hp : PlainRange r) (hco : r.countOnly = false) (hk : r.key ≠ []) (hka : RangeBound r.key)
-    (hea : RangeBound r.rangeEnd) (h0 : (r.rangeEnd == [0]) = false) (hlt : cmp r.key r.rangeEnd = .lt)
+    (hp : PlainRange r) (hco : r.countOnly = false) (hk : r.key ≠ []) (hlt : cmp r.key r.rangeEnd = .lt)
     (hr0 : 0 ≤ r.revision) (hrc : r.revision ≤ s.committed) (hmagic : r.revision ≠ getPartitionMagic)
     (hcb : s.committed < 2 ^ 64) :
     ∃ a b, shimRange c s r = .ok a ∧ refRangeH (histOf recs s.committed) r = .ok b ∧
       a.hdr = b.hdr ∧ a.kvs = b.kvs ∧ a.more = b.more ∧ a.count ≤ b.count ∧ (a.more = false → a.count = b.count) :=
-  range_list_sound_bounds c s recs hst r hp hco hk hka hea h0 hlt hr0 hrc hmagic hcb
+  range_list_sound_bounds c s recs hst r hp hco hk hlt hr0 hrc hmagic hcb
 
 /-- The numbers on `s3` (keys /r/a, /r/b, /r/c): the page after /r/a starts at /r/b (before the fix: at /r/a
 again — with page size 1 the listing never advanced), `[/r/a, /r/a\0)` is exactly /r/a (before: empty),
@@ -963,6 +972,33 @@ theorem pagination_witness :
     (shimRange cfg0 s3 { key := kA ++ [0], rangeEnd := pfxHi, countOnly := true }).map (·.count) = .ok 2 ∧
     (shimRange cfg0 s3 { key := pfxLo, rangeEnd := kB ++ [0], countOnly := true }).map (·.count) = .ok 2 ∧
     (shimRange cfg0 s3 { key := kA ++ [0], rangeEnd := pfxHi, countOnly := true, revision := 1002 }).map (·.count) = .ok 1 := by
+  decide
+
+/-- The numbers on `s3` (keys /r/a, /r/b, /r/c) for bounds with OTHER low bytes (/repo 23c8b93; before, the bound
+`/r/a\x01` was encoded before the records of /r/a: `[/r/a, /r/a\x01)` was empty and a range from `/r/a\x01`
+answered /r/a): `[/r/a, /r/a\x01)` and `[/r/a, /r/a#)` are exactly /r/a, a range from `/r/a\x01`, `/r/a\0\0`,
+`/r/a\0b` starts at /r/b, `[/r/a\x01, /r/a\x02)` (encoded alike) is empty — everywhere the answer of the
+reference on raw keys. -/
+theorem low_byte_bounds_witness :
+    shimRange cfg0 s3 { key := kA, rangeEnd := kA ++ [1] } =
+      .ok { hdr := 1003, kvs := [(kA, v1, 1001)], count := 1, more := false } ∧
+    refRangeH (histOf recs3 1003) { key := kA, rangeEnd := kA ++ [1] } =
+      .ok { hdr := 1003, kvs := [(kA, v1, 1001)], count := 1, more := false } ∧
+    shimRange cfg0 s3 { key := kA, rangeEnd := kA ++ [35] } =
+      .ok { hdr := 1003, kvs := [(kA, v1, 1001)], count := 1, more := false } ∧
+    (shimRange cfg0 s3 { key := kA ++ [1], rangeEnd := pfxHi, limit := 1 }).map (·.kvs) = .ok [(kB, v2, 1002)] ∧
+    refRangeH (histOf recs3 1003) { key := kA ++ [1], rangeEnd := pfxHi, limit := 1 } =
+      .ok { hdr := 1003, kvs := [(kB, v2, 1002)], count := 2, more := true } := by
+  decide
+
+theorem low_byte_bounds_witness' :
+    (shimRange cfg0 s3 { key := kA ++ [0, 0], rangeEnd := pfxHi, limit := 1 }).map (·.kvs) = .ok [(kB, v2, 1002)] ∧
+    (shimRange cfg0 s3 { key := kA ++ [0, 98], rangeEnd := pfxHi, limit := 1 }).map (·.kvs) = .ok [(kB, v2, 1002)] ∧
+    (shimRange cfg0 s3 { key := kA ++ [1], rangeEnd := kA ++ [2] }).map (·.kvs) = .ok [] ∧
+    refRangeH (histOf recs3 1003) { key := kA ++ [1], rangeEnd := kA ++ [2] } =
+      .ok { hdr := 1003, kvs := [], count := 0, more := false } ∧
+    (shimRange cfg0 s3 { key := kA ++ [1], rangeEnd := pfxHi, countOnly := true }).map (·.count) = .ok 2 ∧
+    (shimRange cfg0 s3 { key := pfxLo, rangeEnd := kB ++ [36], countOnly := true }).map (·.count) = .ok 2 := by
   decide
 
 /-! ### watch-create: the range-stream shape needs both borders (/repo 5b8c053) -/
@@ -1037,6 +1073,11 @@ example : ∃ (m m' : Mvcc) (w : WEvent) (old : KVFull), m.get w.key = some old 
    { key := kA, val := v1, mod := 1001, create := 1001, version := 1 }, by decide, by decide, by decide, rfl⟩
 example : PlainRange { key := pfxLo, rangeEnd := pfxHi, limit := 1 } ∧ Alphabet pfxLo ∧ Alphabet pfxHi ∧
     cmp pfxLo pfxHi = .lt := ⟨⟨rfl, rfl, rfl, rfl, rfl, rfl⟩, by decide, by decide, by decide⟩
+
+-- range_succ_bounds_match_ref / count_only_*: a proper interval with low-byte bounds above a non-empty key
+example : PlainRange { key := kA ++ [1], rangeEnd := kA ++ [36, 98] } ∧ kA ++ [1] ≠ [] ∧
+    cmp (kA ++ [1]) (kA ++ [36, 98]) = .lt ∧ ¬ Alphabet (kA ++ [1]) ∧ ¬ Alphabet (kA ++ [36, 98]) :=
+  ⟨⟨rfl, rfl, rfl, rfl, rfl, rfl⟩, by decide, by decide, by decide, by decide⟩
 
 example : kA ≠ [] ∧ m3.kvs.Pairwise (fun a b => a.key ≠ b.key) := by decide
 example : (match m3.get kA with | none => (1000 : Nat) ≠ 0 | some e => 1000 ≠ e.mod) := by
